@@ -232,6 +232,7 @@ func cmdFuzz(args []string) {
 	repo := fs.String("repo", "/repo", "repository (corpus)")
 	progress := fs.String("progress", "", "progress file")
 	only := fs.String("only", "", "base64 input to assemble under every configuration (replay)")
+	tokseq := fs.Int("tokseq", 0, "instead of the random corpus: every sequence of up to this many source tokens")
 	fs.Parse(args)
 	w := newShardWriterMode(*out, 1, *from > 0)
 	leaks := 0
@@ -260,6 +261,32 @@ func cmdFuzz(args []string) {
 		}
 		w.close()
 		fmt.Printf(`{"cases":%d}`+"\n", len(fuzzConfigs))
+		return
+	}
+	if *tokseq > 0 {
+		// every sequence of up to L source tokens (joined by blanks), under two configurations
+		alpha := []string{"mov", "dat", "lbl", "x", "equ", "org", "end", "for", "rof", "3", "0", ",", "#", "<", "*", "+", "-", "/", "(", ")", ":", ";c", "\n", "=", "mov.i", "CORESIZE"}
+		id := 0
+		var rec func(prefix []string, depth int)
+		rec = func(prefix []string, depth int) {
+			if id >= *from {
+				text := strings.Join(prefix, " ")
+				emit(id, []byte(text), id%2)
+				if len(prefix) > 0 {
+					emit(id, []byte(text+"\n"), (id+1)%2)
+				}
+			}
+			id++
+			if depth == *tokseq {
+				return
+			}
+			for _, a := range alpha {
+				rec(append(prefix[:len(prefix):len(prefix)], a), depth+1)
+			}
+		}
+		rec(nil, 0)
+		w.close()
+		fmt.Printf(`{"cases":%d}`+"\n", id)
 		return
 	}
 	r := rand.New(rand.NewSource(*seed))
